@@ -278,3 +278,10 @@ class Outcome:
 
 class Unsupported(Exception):
   pass
+
+
+class OpaqueContainer(Abstract):
+  """A module-level registry whose contents are not modelled: membership tests are arbitrary."""
+
+  def __init__(self, name):
+    self.name = name
